@@ -2513,4 +2513,430 @@ theorem gen_funcs_parse (ho : o.messages = none) (h5 : isEs6 o = false) (f : Soy
 
 end
 
+/-! # the whole file: the two comment lines, the namespace declarations, the functions -/
+
+section
+open SoyVerif.Model SoyVerif.Model.JsGen
+open SoyVerif.Props.C04d (Runs At)
+open SoyVerif.Props.C04f (toFile toTop walkTop_renders AtF)
+
+/-- where the next prefix of a dotted name ends -/
+def nsNext (name : Bytes) (i : Nat) : Nat :=
+  match indexOfDot (name.drop (i + 1)) with
+  | none => name.length
+  | some j => j + (i + 1)
+
+/-- one line of visitNamespace: `if (typeof a.b == 'undefined') { a.b = {}; }` -/
+def nsLine (ind : Nat) (pre : Bytes) : List Piece :=
+  [.fixed (spaces ind), .fixed b!"if (typeof ", .qname pre, .fixed b!" == 'undefined') { ",
+    .fixed (if pre.contains 46 then [] else b!"var "), .qname pre, .fixed b!" = {}; }", .fixed [10]]
+
+def nsPieces (ind : Nat) (name : Bytes) : Nat → Nat → List Piece
+  | 0, _ => []
+  | fuel + 1, i => if i < name.length then nsLine ind (name.take (nsNext name i)) ++ nsPieces ind name fuel (nsNext name i) else []
+
+variable {ind : Nat} {buf : Bytes} {ae : Autoescape} {sc : Scope}
+
+theorem nsLoop_pieces (name : Bytes) : ∀ (fuel i : Nat),
+    Runs (At ind buf ae sc) (At ind buf ae sc) (nsLoop name fuel i) (nsPieces ind name fuel i)
+  | 0, _ => by unfold nsLoop nsPieces; exact Runs.pure
+  | fuel + 1, i => by
+    unfold nsLoop nsPieces
+    split
+    · have h := nsLoop_pieces name fuel (nsNext name i)
+      exact (Runs.seq Runs.indentP (Runs.seq (Runs.fx _) (Runs.seq (Runs.emit _) (Runs.seq (Runs.fx _) (Runs.seq (Runs.fx _)
+        (Runs.seq (Runs.emit _) (Runs.seq (Runs.fx _) (Runs.seq Runs.nl h)))))))).cast rfl
+    · exact Runs.pure
+
+/-- the comment lines in front of a file -/
+def headerPieces (fname : Bytes) : List Piece :=
+  [.fixed (spaces 0), .fixed b!"// This file was automatically generated from ", .comment fname, .fixed b!".", .fixed [10],
+    .fixed (spaces 0), .fixed b!"// Please don't edit this file by hand.", .fixed [10], .fixed (spaces 0), .fixed [10]]
+
+/-- what the generator model writes for a file of the fragment, piece by piece -/
+theorem file_renders (sk : List Bytes → List Bytes) (o : Options) (ho : o.messages = none) (f : SoyFile)
+    (r : List JsFunc × Scope) (h : toFile f = some r) :
+    ∃ p name ae' rest s', f.body = .namespace p name ae' :: rest ∧
+      visitSoyFile sk o f initState =
+        .ok ((), headerPieces f.name ++ (nsPieces 0 name (name.length + 1) 0 ++ r.1.flatMap (renderFunc (isEs6 o) 0)), s') := by
+  unfold toFile at h
+  split at h
+  · rename_i p name ae' rest hbody
+    have hm : Runs (At 0 [] .unspecified ⟨[[]], 0⟩) (At 0 [] ae' ⟨[[]], 0⟩)
+        (JsGen.modify fun s => { s with ns := name, autoescape := ae' }) [] := by
+      intro s hs
+      exact ⟨_, rfl, hs.1, hs.2.1, rfl, hs.2.2.2⟩
+    have hn : Runs (At 0 [] .unspecified ⟨[[]], 0⟩) (At 0 [] ae' ⟨[[]], 0⟩) (walkCmd sk o (.namespace p name ae'))
+        (nsPieces 0 name (name.length + 1) 0) := by
+      sunfold walkCmd
+      exact (Runs.seq Runs.atOther (Runs.seq hm (nsLoop_pieces name (name.length + 1) 0))).cast (by simp)
+    have ht := walkTop_renders sk o ho ae' rest [] _ r h 0
+    have hall : Runs (At 0 [] .unspecified ⟨[[]], 0⟩) (AtF 0 ae' r.2) (visitSoyFile sk o f)
+        (headerPieces f.name ++ (nsPieces 0 name (name.length + 1) 0 ++ r.1.flatMap (renderFunc (isEs6 o) 0))) := by
+      unfold visitSoyFile
+      rw [hbody]
+      unfold walkTop
+      refine Runs.cast (Runs.seq Runs.atOther (Runs.seq Runs.indentP (Runs.seq (Runs.fx _) (Runs.seq (Runs.emit _) (Runs.seq (Runs.fx _)
+        (Runs.seq Runs.nl (Runs.seq Runs.indentP (Runs.seq (Runs.fx _) (Runs.seq Runs.nl (Runs.seq Runs.indentP (Runs.seq Runs.nl
+        (Runs.seq hn ht)))))))))))) (by simp [headerPieces])
+    obtain ⟨s', h1, _⟩ := hall initState ⟨rfl, rfl, rfl, rfl⟩
+    exact ⟨p, name, ae', rest, s', hbody, h1⟩
+  · cases h
+
+end
+
+/-! ## the prefixes of the namespace -/
+
+def NoDot (s : Bytes) : Prop := ∀ c ∈ s, c ≠ 46
+
+theorem JsIdent.noDot {s : Bytes} (h : JsIdent s) : NoDot s := by
+  obtain ⟨c, r, rfl, hc, hr⟩ := h
+  intro x hx e
+  subst e
+  rcases List.mem_cons.mp hx with rfl | hx
+  · revert hc; decide
+  · have := hr _ hx; revert this; decide
+
+theorem indexOfDot_noDot : ∀ (s t : Bytes), NoDot s →
+    Model.JsGen.indexOfDot (s ++ t) = (Model.JsGen.indexOfDot t).map (· + s.length)
+  | [], t, _ => by simp
+  | c :: r, t, h => by
+    have hc : (c == 46) = false := by simp [h c (List.mem_cons_self ..)]
+    have ih := indexOfDot_noDot r t (fun x hx => h x (List.mem_cons_of_mem _ hx))
+    simp only [List.cons_append, Model.JsGen.indexOfDot, hc, Bool.false_eq_true, if_false, ih, List.length_cons]
+    cases Model.JsGen.indexOfDot t <;> simp
+    omega
+
+theorem indexOfDot_segs (r : List Bytes) :
+    Model.JsGen.indexOfDot (r.flatMap (46 :: ·)) = (if r.isEmpty then none else some 0) := by
+  cases r <;> simp [Model.JsGen.indexOfDot]
+
+/-- the prefixes behind `pre`: `pre.s1`, `pre.s1.s2`, … -/
+def prefixesFrom (pre : Bytes) : List Bytes → List Bytes
+  | [] => []
+  | s :: r => (pre ++ 46 :: s) :: prefixesFrom (pre ++ 46 :: s) r
+
+theorem nsNext_at (name pre s : Bytes) (r : List Bytes) (hn : name = pre ++ (46 :: s ++ r.flatMap (46 :: ·))) (hs : NoDot s) :
+    nsNext name pre.length = (pre ++ 46 :: s).length := by
+  unfold nsNext
+  have hd : name.drop (pre.length + 1) = s ++ r.flatMap (46 :: ·) := by
+    rw [hn, show pre ++ (46 :: s ++ r.flatMap (46 :: ·)) = (pre ++ [46]) ++ (s ++ r.flatMap (46 :: ·)) by simp]
+    exact List.drop_left' (by simp)
+  rw [hd, indexOfDot_noDot s _ hs, indexOfDot_segs]
+  cases r with
+  | nil => simp [hn]
+  | cons s' r' => simp; omega
+
+theorem nsPieces_from (ind : Nat) (name : Bytes) : ∀ (rest : List Bytes) (pre : Bytes) (fuel : Nat),
+    name = pre ++ rest.flatMap (46 :: ·) → (∀ s ∈ rest, NoDot s) → rest.length < fuel →
+    nsPieces ind name fuel pre.length = (prefixesFrom pre rest).flatMap (nsLine ind)
+  | [], pre, fuel, hn, _, hf => by
+    cases fuel with
+    | zero => omega
+    | succ fuel => simp [nsPieces, prefixesFrom, hn]
+  | s :: r, pre, fuel, hn, hs, hf => by
+    cases fuel with
+    | zero => omega
+    | succ fuel =>
+      have hn' : name = pre ++ (46 :: s ++ r.flatMap (46 :: ·)) := by simpa using hn
+      have hnext := nsNext_at name pre s r hn' (hs s (List.mem_cons_self ..))
+      have hlt : pre.length < name.length := by rw [hn']; simp
+      have htake : name.take (pre ++ 46 :: s).length = pre ++ 46 :: s := by
+        rw [hn', show pre ++ (46 :: s ++ r.flatMap (46 :: ·)) = (pre ++ 46 :: s) ++ r.flatMap (46 :: ·) by simp]
+        exact List.take_left' rfl
+      have ih := nsPieces_from ind name r (pre ++ 46 :: s) fuel (by rw [hn']; simp)
+        (fun x hx => hs x (List.mem_cons_of_mem _ hx)) (by simp at hf; omega)
+      unfold nsPieces
+      simp only [hlt, if_true, hnext, htake, ih, prefixesFrom, List.flatMap_cons]
+
+/-- visitNamespace writes one declaration per prefix of the namespace -/
+theorem nsPieces_eq (ind : Nat) (name g : Bytes) (segs : List Bytes) (hn : name = g ++ segs.flatMap (46 :: ·)) (hg : JsIdent g)
+    (hs : ∀ s ∈ segs, NoDot s) :
+    nsPieces ind name (name.length + 1) 0 = (g :: prefixesFrom g segs).flatMap (nsLine ind) := by
+  obtain ⟨c, g', rfl, hc, hr⟩ := hg
+  have hgd : NoDot (c :: g') := JsIdent.noDot ⟨c, g', rfl, hc, hr⟩
+  have hg'd : NoDot g' := fun x hx => hgd x (List.mem_cons_of_mem _ hx)
+  have hnext : nsNext name 0 = (c :: g').length := by
+    unfold nsNext
+    have hd : name.drop (0 + 1) = g' ++ segs.flatMap (46 :: ·) := by rw [hn]; simp
+    rw [hd, indexOfDot_noDot g' _ hg'd, indexOfDot_segs]
+    cases segs with
+    | nil => simp [hn]
+    | cons s' r' => simp
+  have hlt : 0 < name.length := by rw [hn]; simp
+  have htake : name.take (c :: g').length = c :: g' := by rw [hn]; exact List.take_left' rfl
+  have hcount : segs.length < name.length := by
+    have : ∀ l : List Bytes, l.length ≤ (l.flatMap (46 :: ·)).length := by
+      intro l
+      induction l with
+      | nil => simp
+      | cons s r ih => simp only [List.flatMap_cons, List.length_append, List.length_cons]; omega
+    have := this segs
+    rw [hn]
+    simp only [List.length_append, List.length_cons]
+    omega
+  have hb := nsPieces_from ind name segs (c :: g') name.length hn hs hcount
+  show nsPieces ind name (name.length + 1) 0 = _
+  unfold nsPieces
+  simp only [hlt, if_true, hnext, htake, hb, List.flatMap_cons]
+
+/-! ## a namespace declaration -/
+
+def sUndefined : Bytes := b!"undefined"
+
+/-- `if (typeof a.b == 'undefined') { a.b = {}; }` / `if (typeof a == 'undefined') { var a = {}; }` -/
+def nsDecl (p : Bytes) : PS :=
+  .ifS (.bin .eq (.unary .typeof (plainQ p)) (.str sUndefined))
+    (.block (.cons (if p.contains 46 then .expr (.assign .set (plainQ p) (.obj .nil)) else .var [(p, .obj .nil)]) .nil))
+
+theorem valid_undefined : ValidUtf8 sUndefined :=
+  ValidUtf8.seq [117] _ (by decide) (ValidUtf8.seq [110] _ (by decide) (ValidUtf8.seq [100] _ (by decide)
+    (ValidUtf8.seq [101] _ (by decide) (ValidUtf8.seq [102] _ (by decide) (ValidUtf8.seq [105] _ (by decide)
+    (ValidUtf8.seq [110] _ (by decide) (ValidUtf8.seq [101] _ (by decide) (ValidUtf8.seq [100] _ (by decide) ValidUtf8.nil))))))))
+
+theorem lex_undefined (rest : Bytes) :
+    jsLex (39 :: 117 :: 110 :: 100 :: 101 :: 102 :: 105 :: 110 :: 101 :: 100 :: 39 :: rest) = pre [.str sUndefined] (jsLex rest) :=
+  lex_str valid_undefined rest
+
+theorem lexk_typeof (rest : Bytes) :
+    jsLex (116 :: 121 :: 112 :: 101 :: 111 :: 102 :: 32 :: rest) = pre [.id b!"typeof"] (jsLex rest) := by
+  have := lex_ident (g := b!"typeof") ⟨_, _, rfl, rfl, by decide⟩ (rest := 32 :: rest) (sep1_cons rfl _)
+  rw [lex_sp] at this; exact this
+
+theorem qSplit_noDot : ∀ (p : Bytes), (∀ c ∈ p, c ≠ 46) → qSplit p = [p]
+  | [], _ => rfl
+  | c :: r, h => by
+    have hc : (c == 46) = false := by simp [h c (List.mem_cons_self ..)]
+    simp [qSplit, hc, qSplit_noDot r (fun x hx => h x (List.mem_cons_of_mem _ hx))]
+
+theorem contains_dot (p : Bytes) : p.contains 46 = false → ∀ c ∈ p, c ≠ 46 := by
+  intro h c hc e
+  subst e
+  have : p.contains 46 = true := List.contains_iff_mem.mpr hc
+  rw [h] at this; cases this
+
+theorem lex_nsLine (ind : Nat) (p : Bytes) (hp : QName p) (rest : Bytes) :
+    jsLex (printPieces (nsLine ind p) ++ rest) = pre (tkS (nsDecl p)) (jsLex rest) := by
+  have hq1 : ∀ r, jsLex (p ++ 32 :: r) = pre (tk (plainQ p)) (jsLex (32 :: r)) := fun r => lex_qname hp (sep1_cons rfl _)
+  by_cases hm : (46 : UInt8) ∈ p
+  · have hd : p.contains 46 = true := by simp [hm]
+    simp only [nsLine, hd, printPieces_cons, printPieces_nil, Piece.print, List.append_assoc, List.cons_append,
+      List.nil_append, List.append_nil, if_true]
+    rw [lex_spaces, lexk_if, lex_lparen, lexk_typeof, hq1, lex_sp, lex_eq_sp, lex_undefined, lex_rparen, lex_sp, lex_lbrace, lex_sp,
+      hq1, lex_sp, lex_set_sp, lex_lbrace, lex_rbrace, lex_semi, lex_sp, lex_rbrace, lex_nl]
+    simp [pre_pre, nsDecl, hm, tkS, tkSs, tk, tkProps, UnOp.tok, BinOp.sym, AsgOp.tok]
+  · have hd : p.contains 46 = false := by simp [hm]
+    have hplain : plainQ p = .ident p := by unfold plainQ; rw [qSplit_noDot p (contains_dot p hd)]; rfl
+    simp only [nsLine, hd, printPieces_cons, printPieces_nil, Piece.print, List.append_assoc, List.cons_append,
+      List.nil_append, List.append_nil, Bool.false_eq_true, if_false]
+    rw [lex_spaces, lexk_if, lex_lparen, lexk_typeof, hq1, lex_sp, lex_eq_sp, lex_undefined, lex_rparen, lex_sp, lex_lbrace, lex_sp,
+      lexk_var, hq1, lex_sp, lex_set_sp, lex_lbrace, lex_rbrace, lex_semi, lex_sp, lex_rbrace, lex_nl]
+    simp [pre_pre, nsDecl, hm, tkS, tkSs, tk, tkProps, tkDecls, tkDeclsTail, UnOp.tok, BinOp.sym, hplain]
+
+theorem isRef_foldl : ∀ (segs : List Bytes) (acc : PE), isRef acc = true → isRef (segs.foldl PE.member acc) = true
+  | [], _, h => h
+  | s :: r, acc, _ => isRef_foldl r (.member acc s) rfl
+
+theorem isRef_plainQ (p : Bytes) : isRef (plainQ p) = true := by
+  unfold plainQ
+  split
+  · exact isRef_foldl _ _ rfl
+  · rfl
+
+theorem wf_nsDecl (p : Bytes) (hp : QName p) : WfTop (.stmt (nsDecl p)) := by
+  have hq := wf_plainQ hp
+  obtain ⟨g', hh⟩ := headTok_plainQ p
+  simp only [WfTop]
+  refine ⟨?_, b!"if", _, by simp only [nsDecl, tkS]; rfl, by decide⟩
+  simp only [nsDecl, WfS, Wf, BinOp.lvl]
+  refine ⟨⟨⟨hq.1, by rw [hq.2]; omega⟩, trivial, by simp [PE.lvl], by simp [PE.lvl]⟩, ?_⟩
+  by_cases hm : (46 : UInt8) ∈ p
+  · have hd : p.contains 46 = true := by simp [hm]
+    simp only [hd, if_true, WfSs, WfS, Wf, WfProps, headTok]
+    exact ⟨⟨⟨hq.1, isRef_plainQ p, trivial⟩, by rw [hh]; simp⟩, trivial⟩
+  · have hd : p.contains 46 = false := by simp [hm]
+    have hplain : plainQ p = .ident p := by unfold plainQ; rw [qSplit_noDot p (contains_dot p hd)]; rfl
+    have hw := hq.1
+    rw [hplain] at hw
+    simp only [Wf] at hw
+    simp only [hd, Bool.false_eq_true, if_false, WfSs, WfS, WfDecls, Wf, WfProps]
+    exact ⟨⟨by simp, hw, trivial, trivial⟩, trivial⟩
+
+theorem isNsDecl_nsDecl (p : Bytes) (hp : QName p) : isNsDecl (nsDecl p) = true := by
+  have hq := qnameOf_plainQ hp
+  by_cases hm : (46 : UInt8) ∈ p
+  · simp [nsDecl, isNsDecl, hm, hq, sUndefined]
+  · simp [nsDecl, isNsDecl, hm, hq, sUndefined]
+
+/-! ## the comment lines -/
+
+theorem lex_comment (body rest : Bytes) (h1 : ∀ c ∈ body, isEol c = false) (h2 : noLineSep (47 :: body) = true) :
+    jsLex (47 :: 47 :: (body ++ 10 :: rest)) = jsLex rest := by
+  obtain ⟨e1, e2⟩ := takeWhile_sep (fun b => !isEol b) (47 :: body) (10 :: rest)
+    (by
+      intro b hb
+      rcases List.mem_cons.mp hb with rfl | hb
+      · rfl
+      · simp [h1 b hb])
+    (by intro c r e; cases e; rfl)
+  have : lexOne (47 :: 47 :: (body ++ 10 :: rest)) = some (none, 10 :: rest) := by
+    rw [lexOne_cons]
+    simp only [List.cons_append] at e1 e2
+    simp only [show isWs 47 = false from rfl, Bool.false_eq_true, if_false, beq_self_eq_true, if_true, e1, e2, h2,
+      List.take_succ_cons, List.take_zero, Bool.and_self]
+  rw [lex_skip this, lex_nl]
+
+theorem noLineSep_cons {c : UInt8} (hc : c ≠ 0xE2) (r : Bytes) : noLineSep (c :: r) = noLineSep r := by
+  have : isLineSep (c :: r) = false := by
+    simp only [isLineSep, Bool.or_eq_false_iff]
+    cases r with
+    | nil => simp
+    | cons d r' => cases r' <;> simp [hc]
+  simp [noLineSep, this]
+
+theorem noLineSep_prefix : ∀ (a b : Bytes), (∀ c ∈ a, c ≠ 0xE2) → noLineSep (a ++ b) = noLineSep b
+  | [], _, _ => rfl
+  | c :: r, b, h => by
+    rw [List.cons_append, noLineSep_cons (h c (List.mem_cons_self ..)),
+      noLineSep_prefix r b (fun x hx => h x (List.mem_cons_of_mem _ hx))]
+
+theorem noLineSep_dot : ∀ (f : Bytes), noLineSep (f ++ [46]) = noLineSep f
+  | [] => rfl
+  | [c] => by simp [noLineSep, isLineSep]
+  | [c, d] => by simp [noLineSep, isLineSep]
+  | c :: d :: e :: r => by
+    have ih := noLineSep_dot (d :: e :: r)
+    simp only [List.cons_append] at ih ⊢
+    simp only [noLineSep] at ih ⊢
+    rw [ih]
+    simp [isLineSep]
+
+theorem lex_header (fname : Bytes) (hc : SoyVerif.Lemmas.JsGenTop.CommentSafe fname) (rest : Bytes) :
+    jsLex (printPieces (headerPieces fname) ++ rest) = jsLex rest := by
+  have hl1 := lex_comment (b!" This file was automatically generated from " ++ (fname ++ [46]))
+    (47 :: 47 :: (b!" Please don't edit this file by hand." ++ 10 :: 10 :: rest))
+    (by
+      intro c hc'
+      rcases List.mem_append.mp hc' with h | h
+      · have : ∀ x ∈ (b!" This file was automatically generated from " : Bytes), isEol x = false := by decide
+        exact this c h
+      · rcases List.mem_append.mp h with h | h
+        · have := hc.1 c h
+          simp [isEol, this.1, this.2]
+        · simp only [List.mem_singleton] at h; subst h; rfl)
+    (by
+      rw [show (47 : UInt8) :: (b!" This file was automatically generated from " ++ (fname ++ [46])) =
+        (47 :: b!" This file was automatically generated from ") ++ (fname ++ [46]) from rfl,
+        noLineSep_prefix _ _ (by decide), noLineSep_dot]
+      exact hc.2)
+  have hl2 := lex_comment b!" Please don't edit this file by hand." (10 :: rest) (by decide) (by decide)
+  simp only [headerPieces, spaces, printPieces_cons, printPieces_nil, Piece.print, List.append_assoc, List.cons_append,
+    List.nil_append, List.append_nil] at hl1 hl2 ⊢
+  rw [hl1, hl2, lex_nl]
+
+/-! ## the whole file -/
+
+theorem qSplit_of_join : ∀ (segs : List Bytes) (g : Bytes), NoDot g → (∀ s ∈ segs, NoDot s) →
+    qSplit (g ++ segs.flatMap (46 :: ·)) = g :: segs
+  | segs, c :: g', hg, hs => by
+    have hc : (c == 46) = false := by simp [hg c (List.mem_cons_self ..)]
+    have ih := qSplit_of_join segs g' (fun x hx => hg x (List.mem_cons_of_mem _ hx)) hs
+    simp [qSplit, hc, ih]
+  | [], [], _, _ => rfl
+  | s :: r, [], _, hs => by
+    have ih := qSplit_of_join r s (hs s (List.mem_cons_self ..)) (fun x hx => hs x (List.mem_cons_of_mem _ hx))
+    simp [qSplit, ih]
+termination_by segs g => (segs.length, g.length)
+
+theorem prefixes_form (g : Bytes) : ∀ (rest done : List Bytes) (x : Bytes),
+    x ∈ prefixesFrom (g ++ done.flatMap (46 :: ·)) rest → ∃ k, x = g ++ (done ++ rest.take k).flatMap (46 :: ·)
+  | [], _, _, h => by cases h
+  | s :: r, done, x, h => by
+    simp only [prefixesFrom, List.mem_cons] at h
+    rcases h with rfl | h
+    · exact ⟨1, by simp⟩
+    · have hpre : g ++ done.flatMap (46 :: ·) ++ 46 :: s = g ++ (done ++ [s]).flatMap (46 :: ·) := by simp
+      rw [hpre] at h
+      obtain ⟨k, hk⟩ := prefixes_form g r (done ++ [s]) x h
+      exact ⟨k + 1, by rw [hk]; simp⟩
+
+theorem prefixes_qname {name g : Bytes} {segs : List Bytes} (he : qSplit name = g :: segs) (hg : JsIdent g)
+    (hr : isReserved g = false) (hs : ∀ s ∈ segs, JsIdent s) : ∀ x ∈ g :: prefixesFrom g segs, QName x := by
+  intro x hx
+  have hform : ∃ k, x = g ++ (segs.take k).flatMap (46 :: ·) := by
+    rcases List.mem_cons.mp hx with rfl | hx
+    · exact ⟨0, by simp⟩
+    · have := prefixes_form g segs [] x (by simpa using hx)
+      simpa using this
+  obtain ⟨k, rfl⟩ := hform
+  have hsub : ∀ s ∈ segs.take k, JsIdent s := fun s h => hs s (List.mem_of_mem_take h)
+  exact ⟨g, segs.take k, qSplit_of_join _ g (JsIdent.noDot hg) (fun s h => JsIdent.noDot (hsub s h)), hg, hr, hsub⟩
+
+theorem tkTops_append : ∀ (a b : List PTop), tkTops (a ++ b) = tkTops a ++ tkTops b
+  | [], b => rfl
+  | x :: r, b => by simp [tkTops, tkTops_append r b]
+
+theorem lex_nsLines (ind : Nat) : ∀ (ps : List Bytes), (∀ p ∈ ps, QName p) → ∀ (rest : Bytes),
+    jsLex (printPieces (ps.flatMap (nsLine ind)) ++ rest) = pre (tkTops (ps.map fun p => .stmt (nsDecl p))) (jsLex rest)
+  | [], _, rest => by simp [printPieces_nil, tkTops]
+  | p :: r, h, rest => by
+    simp only [List.flatMap_cons, printPieces_append, List.append_assoc, List.map_cons, tkTops, tkTop]
+    rw [lex_nsLine ind p (h p (List.mem_cons_self ..)), lex_nsLines ind r (fun x hx => h x (List.mem_cons_of_mem _ hx)), pre_pre]
+
+theorem readProgram_ns : ∀ (ps : List Bytes) (xs : List PTop), (∀ p ∈ ps, QName p) →
+    readProgram (ps.map (fun p => .stmt (nsDecl p)) ++ xs) = readProgram xs
+  | [], _, _ => rfl
+  | p :: r, xs, h => by
+    simp [readProgram, isNsDecl_nsDecl p (h p (List.mem_cons_self ..)),
+      readProgram_ns r xs (fun x hx => h x (List.mem_cons_of_mem _ hx))]
+
+section
+open SoyVerif.Model SoyVerif.Model.JsGen
+open SoyVerif.Props.C04f (toFile)
+
+/-- FILES: the text the generator model (ES5 formatter, no message bundle) writes for a file of the fragment — the two
+    comment lines, the declarations of the namespace's prefixes, the functions — is read by the grammar, as a program,
+    as exactly the functions `toFile` translates the file to (Props/C04f: the ASTs whose semantics the registry theorems
+    of C04 are about), in canonical form.  The file's name must not break its comment line, the namespace is a dotted
+    name, the functions are in the image. -/
+theorem gen_text_parses (sk : List Bytes → List Bytes) (o : Options) (ho : o.messages = none) (h5 : isEs6 o = false)
+    (f : SoyFile) (r : List JsFunc × Scope) (h : toFile f = some r) (hi : ∀ g ∈ r.1, ImgF g)
+    (hc : SoyVerif.Lemmas.JsGenTop.CommentSafe f.name)
+    (hn : ∀ p name ae rest, f.body = .namespace p name ae :: rest → QName name) :
+    ∃ ps s', visitSoyFile sk o f initState = .ok ((), ps, s') ∧ jsParseFile (printPieces ps) = some (r.1.map canonF) := by
+  obtain ⟨p, name, ae', rest, s', hbody, hw⟩ := file_renders sk o ho f r h
+  rw [h5] at hw
+  refine ⟨_, s', hw, ?_⟩
+  obtain ⟨g, segs, he, hg, hr, hs⟩ := hn p name ae' rest hbody
+  have hj := qSplit_join name g segs he
+  have hpieces := nsPieces_eq 0 name g segs hj hg (fun s h => JsIdent.noDot (hs s h))
+  have hq := prefixes_qname he hg hr hs
+  have hl : jsLex (printPieces (headerPieces f.name ++
+      (nsPieces 0 name (name.length + 1) 0 ++ r.1.flatMap (renderFunc false 0)))) =
+      some (tkTops ((g :: prefixesFrom g segs).map (fun p => .stmt (nsDecl p)) ++ r.1.map plainF)) := by
+    have h1 := lex_header f.name hc
+      (printPieces (nsPieces 0 name (name.length + 1) 0 ++ r.1.flatMap (renderFunc false 0)))
+    have h2 := lex_nsLines 0 (g :: prefixesFrom g segs) hq (printPieces (r.1.flatMap (renderFunc false 0)))
+    have h3 := lexFs r.1 hi []
+    simp only [List.append_nil, jsLex_nil] at h3
+    rw [printPieces_append, h1, hpieces, printPieces_append, h2, h3, tkTops_append]
+    simp [pre]
+  unfold jsParseFile
+  rw [hl]
+  simp only
+  rw [parseProgram_tk _ (by
+    intro x hx
+    rcases List.mem_append.mp hx with hx | hx
+    · simp only [List.mem_map] at hx
+      obtain ⟨q, hq', rfl⟩ := hx
+      exact wf_nsDecl q (hq q hq')
+    · simp only [List.mem_map] at hx
+      obtain ⟨fn, hf, rfl⟩ := hx
+      exact wfF fn (hi fn hf))]
+  simp only
+  rw [readProgram_ns _ _ hq]
+  exact readProgram_funcs r.1 hi
+
+end
+
 end SoyVerif.Props.C14c
